@@ -46,6 +46,8 @@ def immutable_array(
         The immutable array.
     """
     array = np.array(array_like, **kwargs)
+    if array.base is not None:  # ndmin may return a view of a writable array
+        array = array.copy()
     array.setflags(write=False)
     return array
 
